@@ -326,7 +326,7 @@ def selftest(pid, seed):
                 replay_b(chk, pid, rnd, domain[0], domain[2], 400)
         finally:
             del os.environ['VERIF_C20_MUTANT']
-        hit = sum(1 for v in chk.violations if v['clause'] == clause)
+        hit = sum(1 for v in chk.violations if v['clause'] == clause and not v['signature'].startswith('idle-status-waiting'))
         results.append((f'mutant {name}', clause, hit))
     # corrupted trace fields on an unmutated run
     chk = core.Check(pid, 'selftest', seed)
